@@ -151,6 +151,41 @@ class ClassInfo:
         return self.module.name + '.' + self.name
 
 
+def positional_layout(repo, module, local_names, call):
+    """Positions of the positional arguments of a call, with star-unpacking resolved where the
+    length of the unpacked sequence is known (a tuple / list display, or a call to a package
+    function whose only return is one).  -> list of (position or None, argument node); a
+    position is None from the first starred argument of unknown length on."""
+    out, pos = [], 0
+    for a in call.args:
+        if isinstance(a, ast.Starred):
+            n = None
+            v = a.value
+            if isinstance(v, (ast.Tuple, ast.List)):
+                n = len(v.elts)
+            elif isinstance(v, ast.Call):
+                q = module.resolve(v.func, local_names) if module is not None else None
+                tgt = repo.lookup(q) if q and q.startswith('pyins') else None
+                if tgt is None and isinstance(v.func, ast.Attribute) and \
+                        isinstance(v.func.value, ast.Name) and v.func.value.id == 'self':
+                    # a method of the enclosing class
+                    for ci in getattr(module, 'classes', {}).values():
+                        m_ = ci.methods.get(v.func.attr)
+                        if m_ is not None:
+                            tgt = m_ if tgt is None else False
+                if tgt not in (None, False) and hasattr(tgt, 'node'):
+                    rets = [r for r in ast.walk(tgt.node) if isinstance(r, ast.Return)]
+                    if len(rets) == 1 and isinstance(rets[0].value, (ast.Tuple, ast.List)):
+                        n = len(rets[0].value.elts)
+            out.append((None, a))
+            pos = None if n is None or pos is None else pos + n
+            continue
+        out.append((pos, a))
+        if pos is not None:
+            pos += 1
+    return out
+
+
 def _fold_return_temporaries(tree):
     """Program-model normalisation (copy propagation of one shape): `t = <e>; return t`, with t a
     plain local all of whose occurrences are such pairs, is read as `return <e>`.  The rules
@@ -196,6 +231,65 @@ def _fold_return_temporaries(tree):
     return tree
 
 
+def _fold_negated_membership(tree):
+    """`not (a in b)` is `a not in b` (and the three siblings with `is` / `not in` / `is not`):
+    exact for every operand, unlike the ordering comparisons"""
+    flip = {ast.In: ast.NotIn, ast.NotIn: ast.In, ast.Is: ast.IsNot, ast.IsNot: ast.Is}
+
+    class T(ast.NodeTransformer):
+        def visit_UnaryOp(self, node):
+            self.generic_visit(node)
+            if isinstance(node.op, ast.Not) and isinstance(node.operand, ast.Compare) and \
+                    len(node.operand.ops) == 1 and type(node.operand.ops[0]) in flip:
+                c = node.operand
+                return ast.copy_location(ast.Compare(
+                    left=c.left, ops=[flip[type(c.ops[0])]()], comparators=c.comparators), node)
+            return node
+    return ast.fix_missing_locations(T().visit(tree))
+
+
+def _inline_tuple_getters(tree):
+    """Program-model normalisation: `f(..., *self.m(), ...)` where the method m of the same class
+    is nothing but `return (<expressions over self>)` is read with the elements in place of the
+    star-unpacking (the positions of the other arguments are then known to every rule)."""
+    import copy
+    for cls in ast.walk(tree):
+        if not isinstance(cls, ast.ClassDef):
+            continue
+        getters = {}
+        for m in cls.body:
+            if not isinstance(m, ast.FunctionDef) or len(m.args.args) != 1 or m.args.vararg or \
+                    m.args.kwarg or m.args.kwonlyargs or m.decorator_list:
+                continue
+            body = [st for st in m.body if not (isinstance(st, ast.Expr) and
+                                                isinstance(st.value, ast.Constant))]
+            if len(body) == 1 and isinstance(body[0], ast.Return) and \
+                    isinstance(body[0].value, (ast.Tuple, ast.List)) and \
+                    m.args.args[0].arg == 'self' and not any(
+                        isinstance(n, (ast.Call, ast.Lambda, ast.Starred))
+                        for n in ast.walk(body[0].value)):
+                getters[m.name] = body[0].value
+        if not getters:
+            continue
+        for call in ast.walk(cls):
+            if not isinstance(call, ast.Call):
+                continue
+            new_args, changed = [], False
+            for a in call.args:
+                v = a.value if isinstance(a, ast.Starred) else None
+                if isinstance(v, ast.Call) and not v.args and not v.keywords and \
+                        isinstance(v.func, ast.Attribute) and isinstance(v.func.value, ast.Name) \
+                        and v.func.value.id == 'self' and v.func.attr in getters:
+                    for e in getters[v.func.attr].elts:
+                        new_args.append(ast.copy_location(copy.deepcopy(e), a))
+                    changed = True
+                else:
+                    new_args.append(a)
+            if changed:
+                call.args = new_args
+    return ast.fix_missing_locations(tree)
+
+
 class Module:
     def __init__(self, repo, name, path, relpath):
         self.repo = repo
@@ -206,7 +300,10 @@ class Module:
             self.source = f.read()
         with warnings.catch_warnings():
             warnings.simplefilter('ignore')
-            self.tree = _fold_return_temporaries(ast.parse(self.source, filename=path))
+            from .inline import inline_new_helpers
+            self.tree = _fold_negated_membership(_fold_return_temporaries(inline_new_helpers(
+                _inline_tuple_getters(_fold_return_temporaries(
+                    ast.parse(self.source, filename=path))))))
         self.imports = {}
         self.consts = {}
         self.functions = {}
